@@ -8,7 +8,7 @@ META = {
                         "counter at 0x7fffffff is one value among all), tracked slot any of 256 with symbolic contents, get_line(k) for every int k, "
                         "mlog_dump on logs of up to 16 messages (fully unwound). Inductive: covers histories of any length",
                "thorough": "as quick, plus mlog_dump on logs of 0..4 messages (loop fully unwound) and two more canaries"},
-    "outside": ["mlog_dump on logs longer than 4 messages: not decided by the solver (each read through the line pointer costs ~0.5 M variables under "
+    "outside": ["mlog_dump beyond its first two lines on logs longer than 4 messages: not decided by the solver (each read through the line pointer costs ~0.5 M variables under "
                 "--no-simplify; 4 iterations already need 8.6 GB). The function is `for (i = 0; (line = get_line(i)); i++) fprintf(f, line->fmt, args)`; "
                 "get_line itself is covered for every count and every i",
                 "n >= 2^40 (technical cap on the ghost count; the representation is periodic in n mod 256 beyond the fold)",
